@@ -1,0 +1,8 @@
+//go:build !verif
+// +build !verif
+
+package rsec16
+
+const verifEnabled = false
+
+func verifNoteWrite(outIndex int, out []byte, dataStart, dataEnd int) {}
